@@ -810,6 +810,8 @@ def st_into_iter(ex, callee, args, st):
     v = ex.deref(args[0], st)
     if isinstance(v, SeqIter):
         return _ret(v, st)
+    if isinstance(v, Adt) and str(v.ty).split("::")[-1].startswith("Range") and "Range<" in callee:
+        return _ret(v, st)          # a range is its own iterator
     if isinstance(v, Sym) and "HashMap<" in v.ty_text and getattr(ex, "model_symmaps", False):
         return st_symmap_into_iter(ex, callee, args, st)
     if isinstance(v, Sym) and "HashMap<" in v.ty_text:
@@ -921,6 +923,30 @@ def st_iter_find(ex, callee, args, st):
                     s_f.pc.append(nt)
                 work.append((j + 1, s_f))
     return res
+
+
+def st_range_next(ex, callee, args, st):
+    """`Range<usize>::next` on a range whose bounds are literals on this path (loop counters of `for _ in 0..n` with a fixed n)"""
+    ref = args[0]
+    rg = ex.deref(ref, st)
+    if not (isinstance(rg, Adt) and len(rg.fields) == 2 and isinstance(ref, Ref)):
+        return _fallback(ex, callee, args, st, f"next on {rg!r}")
+    vals = [f[1] if isinstance(f, tuple) else f for f in rg.fields]
+    lits = [symex._int_lit(v.term) if isinstance(v, Scalar) else None for v in vals]
+    if None in lits:
+        return _fallback(ex, callee, args, st, f"next on a range with symbolic bounds {rg!r}")
+    lo, hi = lits
+    if lo >= hi:
+        return _ret(Adt("Option", "None", []), st)
+    st2 = st.fork()
+    names = [f[0] if isinstance(f, tuple) else None for f in rg.fields]
+    new_lo = S("int", str(lo + 1), 64, False)
+    fields = [(names[0], new_lo) if names[0] is not None else new_lo, rg.fields[1]]
+    r = ref
+    while isinstance(ex._load(r.frame, r.place, st2), Ref):
+        r = ex._load(r.frame, r.place, st2)
+    ex._store(r.frame, r.place, Adt(rg.ty, rg.variant, fields), st2)
+    return _ret(Adt("Option", "Some", [S("int", str(lo), 64, False)]), st2)
 
 
 class FilterMapIter(symex.Val):
@@ -1057,6 +1083,7 @@ STATE_INTRINSICS = {
     r"^(std::vec::)?Vec::<.*>::new$": st_vec_new,
     r"^(std::vec::)?Vec::<.*>::push$": st_vec_push,
     r"^(std::vec::)?Vec::<.*>::pop$": st_vec_pop,
+    r"^<(std::ops::)?Range<usize> as (std::iter::)?Iterator>::next$": st_range_next,
     r"^<(std::slice::)?Iter<.*> as (std::iter::)?Iterator>::filter_map::<.*>$": st_iter_filter_map,
     r"^<FilterMap<.*> as (std::iter::)?Iterator>::collect::<(std::vec::)?Vec<.*>>$": st_collect_filter_map,
     r"^<(std::vec::)?Vec<.*> as (std::ops::)?Index<usize>>::index$": st_vec_index,
